@@ -430,7 +430,10 @@ def check_archive_case(case, acc, arch, enc, shipped_iterations):
         if not leaked:
             acc.note("wrong_password_read_returned_without_secrets")
             continue
-        if pw == "":
+        if pw == "" and not m.encrypted:
+            # lenient reading: an empty password that the archive itself records as "not encrypted" is "without encryption"
+            acc.note("empty_password_treated_as_no_encryption")
+        elif pw == "":
             acc.violation({"mech": "empty_password_secrets_stored_plaintext"},
                           f"archive created with encryption_password='' (manifest encrypted={m.encrypted}) returns the secrets of "
                           f"{leaked[:3]} when read with a different password ({'none' if w is None else 'non-empty'})", case)
